@@ -75,14 +75,14 @@ def p_validate(prog, case, budget):
     new_fn = prog.resolve_crate_fn('config::MainConfig::new')
     S = lambda s_, **f: mk(prog, s_, **f)
     def run(M):
-        rule = True; expect = {}
+        rule = True; expect = {}; parts = {}
         cli = dict(gen_password_hash=False, password=NONE(), config=NONE(), listen=NONE(), port=NONE(), name=NONE(), network=NONE(), dns_lookup=False,
                    tls_cert_file=NONE(), tls_cert_key_file=NONE(), log_file=NONE())
         cfgk = {}
         if kind == 'server-name':
-            bs = sym_string(M, 'n', n); cfgk['name'] = StringV(bs); rule = contains(bs, 46)
+            bs = sym_string(M, 'n', n); cfgk['name'] = StringV(bs); rule = contains(bs, 46); parts['name'] = bs
         elif kind == 'cli-name-override':
-            bs = sym_string(M, 'n', n); has = z3.Bool('cli_has_name')
+            bs = sym_string(M, 'n', n); has = z3.Bool('cli_has_name'); parts['cli_name'] = bs
             cli['name'] = opt_sym(has, StringV(bs)); cfgk['name'] = mkstring('file.name')
             rule = Or(Not(has), contains(bs, 46)); expect['name'] = (has, bs, list(b'file.name'))
         elif kind == 'cli-other-overrides':
@@ -96,27 +96,27 @@ def p_validate(prog, case, budget):
             cli['tls_cert_file'] = opt_sym(hc, mkstring('c.crt')); cli['tls_cert_key_file'] = opt_sym(hk, mkstring('k.key'))
             rule = (hc == hk); expect['tls'] = (hc, hk)
         elif kind == 'server-password':
-            hb = sym_hash(M, case.get('hlen', 86)); cfgk['password'] = some(StringV(hb)); rule = ref_hash(hb)
+            hb = sym_hash(M, case.get('hlen', 86)); cfgk['password'] = some(StringV(hb)); rule = ref_hash(hb); parts['hash'] = hb
         elif kind == 'operator':
             nb = sym_string(M, 'o', n); hb = sym_hash(M, case.get('hlen', 86))
             cfgk['operators'] = some(VecV([S('OperatorConfig', name=StringV(nb), password=StringV(hb), mask=NONE())]))
-            rule = And(ref_username(nb), ref_hash(hb))
+            rule = And(ref_username(nb), ref_hash(hb)); parts['oper_name'] = nb; parts['hash'] = hb
         elif kind == 'user':
             nb = sym_string(M, 'u', n); kb = sym_string(M, 'k', n); hasp = z3.Bool('user_has_password'); hb = sym_hash(M, case.get('hlen', 86))
             cfgk['users'] = some(VecV([S('UserConfig', name=StringV(nb), nick=StringV(kb), password=opt_sym(hasp, StringV(hb)), mask=NONE())]))
-            rule = And(ref_username(nb), ref_username(kb), Or(Not(hasp), And(ref_hash(hb), len(hb) >= 6)))
+            rule = And(ref_username(nb), ref_username(kb), Or(Not(hasp), And(ref_hash(hb), len(hb) >= 6))); parts['user_name'] = nb; parts['user_nick'] = kb; parts['hash'] = hb
         elif kind == 'channel':
             cb = sym_string(M, 'c', n)
             modes = M.run_fn(prog.impl_index[('ChannelModes', 'Default', 'default')][0], [])
             cfgk['channels'] = some(VecV([S('ChannelConfig', name=StringV(cb), topic=NONE(), modes=modes)]))
-            rule = ref_channel(cb)
+            rule = ref_channel(cb); parts['chan'] = cb
         elif kind == 'long-nick':
             ln = case['nicklen']
             cfgk['users'] = some(VecV([S('UserConfig', name=mkstring('u'), nick=mkstring('n' * ln), password=NONE(), mask=NONE())]))
             rule = ln <= 200
         M.env['toml_config'] = base_config(prog, **cfgk)
         r = M.run_fn(new_fn, [S('Cli', **cli)])
-        return r, rule, expect
+        return r, rule, expect, parts
     def on(r):
         M = r.M
         if r.kind == 'panic':
@@ -126,12 +126,15 @@ def p_validate(prog, case, budget):
             return
         if r.kind != 'ok': return
         nontriv[0] += 1
-        res, rule, expect = r.value
+        res, rule, expect, parts = r.value
         isok = res.variant == 0
         v, md = check_valid(M, Iff(isok, rule), st)
         if not v and md is not None:
             findings.append(dict(kind='mismatch', site='MainConfig::new acceptance', what=f'{case["name"]}: configuration {"accepted" if isok else "refused"} against the documented rule',
-                                 predicate=kind, witness=dict(case=case['name'], profile=prog.profile, model=str(md)[:800])))
+                                 predicate=kind, witness=dict(case=case['name'], kind=kind, nicklen=case.get('nicklen'), profile=prog.profile, model=str(md)[:800], accepted_by_model=isok,
+                                                              rule=(bool(rule) if isinstance(rule, bool) else z3.is_true(md.eval(rule, True))),
+                                                              parts={k: bytes(md.eval(b, True).as_long() for b in v).decode('latin-1') for k, v in parts.items()},
+                                                              bools={d.name(): z3.is_true(md[d]) for d in md.decls() if z3.is_bool(md[d])})))
         if isok:
             cfg = res.fields[0]
             g = lambda n_: fld(prog, cfg, n_)
@@ -215,10 +218,69 @@ def make_cases(tier, profile):
 BOUNDS = dict(validation='server name, -n option, operator / user / nick / channel names fully symbolic up to 3 (5) printable bytes; password hashes fully symbolic at lengths 0, 5, 85, 86, 87, 88; nick lengths 0, 200, 201; all CLI options present/absent symbolically',
               outside='argon2id (that a -g hash accepts exactly its password): not bit-blastable, left to the repository\'s two argon2 unit tests; TOML syntax -> struct (toml/serde); TLS-on == TLS-off transcripts (rustls/openssl); "each setting governs behaviour" for max_joins, default modes, predefined users/operators/channels is discharged by C03/C07/C11/C16 whose worlds range over those settings')
 
+def native_accepts(run, w):
+    """start the real binary on a generated configuration file: -> True (serves), False (refuses to start), None (cannot tell)"""
+    import subprocess, os, socket, time as _t
+    from mirsym import ircreplay as R
+    exe = run.snap.build_server(False)
+    port = R.free_port()
+    P = w.get('parts', {}); B = w.get('bools', {}); kind = w.get('kind')
+    name = P.get('name', 'file.name') if kind == 'server-name' else ('file.name' if kind == 'cli-name-override' else 'irc.example')
+    lines = [f'name = {R.toml_str(name)}', 'admin_info = "a"', 'info = "i"', 'listen = "127.0.0.1"', f'port = {port}', 'network = "net"', 'motd = "m"',
+             'ping_timeout = 120', 'pong_timeout = 20', 'dns_lookup = false', 'log_level = "INFO"']
+    if kind == 'server-password': lines.append(f'password = {R.toml_str(P["hash"])}')
+    lines += ['[default_user_modes]'] + [f'{m} = false' for m in ('invisible', 'oper', 'local_oper', 'registered', 'wallops')]
+    if kind == 'operator':
+        lines += ['[[operators]]', f'name = {R.toml_str(P["oper_name"])}', f'password = {R.toml_str(P["hash"])}']
+    if kind == 'user':
+        lines += ['[[users]]', f'name = {R.toml_str(P["user_name"])}', f'nick = {R.toml_str(P["user_nick"])}']
+        if B.get('user_has_password'): lines.append(f'password = {R.toml_str(P["hash"])}')
+    if kind == 'long-nick':
+        lines += ['[[users]]', 'name = "u"', f'nick = "{"n" * w["nicklen"]}"']
+    if kind == 'channel':
+        lines += ['[[channels]]', f'name = {R.toml_str(P["chan"])}', '[channels.modes]', 'moderated = false', 'invite_only = false', 'secret = false', 'protected_topic = false', 'no_external_messages = false']
+    cfg = os.path.join(run.snap.dir, f'c20_{port}.toml')
+    open(cfg, 'w', encoding='latin-1').write('\n'.join(lines) + '\n')
+    args = [exe, '-c', cfg]
+    if kind == 'cli-name-override' and B.get('cli_has_name'): args.append('--name=' + P['cli_name'])
+    if kind == 'tls':
+        if B.get('cli_cert') and B.get('cli_key'): return None, 'both TLS files given: start-up depends on the files'
+        if B.get('cli_cert'): args.append('--tls-cert-file=c.crt')
+        if B.get('cli_key'): args.append('--tls-cert-key-file=k.key')
+    if kind == 'cli-other-overrides': return None, 'no acceptance rule'
+    p = subprocess.Popen(args, stdout=subprocess.PIPE, stderr=subprocess.STDOUT, env=dict(os.environ, RUST_LOG='error', RUST_BACKTRACE='0'))
+    t0 = _t.time(); verdict = None
+    try:
+        while _t.time() - t0 < 8:
+            if p.poll() is not None:
+                verdict = False; break
+            try:
+                c = socket.create_connection(('127.0.0.1', port), timeout=0.3); c.close(); verdict = True; break
+            except OSError:
+                _t.sleep(0.05)
+    finally:
+        out = b''
+        if p.poll() is None: p.kill()
+        try: out = p.communicate(timeout=5)[0] or b''
+        except Exception: pass
+    return verdict, ' '.join(args[1:])[-200:] + ' -> ' + ('serves' if verdict else 'refuses: ' + out.decode('utf-8', 'replace')[-160:] if verdict is False else 'unknown')
+
 def confirm(run, cands):
     for f in cands:
         fi = Finding(PROP, f['kind'], f['site'], f['what'], f['witness'], role=dict(predicate=f.get('predicate', '')))
-        fi.confirmed = None; fi.native = 'no native replay for configuration findings (start the binary with a generated file to confirm)'
+        w = f['witness']
+        if f['site'] == 'MainConfig::new acceptance' and 'rule' in w:
+            try:
+                got, text = native_accepts(run, w)
+            except Exception as e:
+                got, text = None, 'native start failed: ' + repr(e)[:300]
+            if got is None: fi.confirmed = None
+            else:
+                fi.confirmed = (got != w['rule']) and (got == w['accepted_by_model'])
+                if fi.confirmed: run.native_replays += 1
+            fi.native = text
+        else:
+            fi.confirmed = None; fi.native = 'no native replay for this configuration finding'
         run.add_finding(fi)
 
 if __name__ == '__main__':
